@@ -1,129 +1,127 @@
 (* Property C15 — XLSX shared formulas expand to the translated formula of each member cell.
    Only the property theorems (closed by [exact]), [Check] pins, non-vacuity examples and
    [Print Assumptions].  Model / spec / known classes: SharedFmla.v; proofs: SharedFmla_proofs.v
-   (which uses Col26.v / Col26_proofs.v). *)
+   (which uses Col26.v / Col26_proofs.v).
+   Every theorem holds for an arbitrary oracle [is_alnum] (Rust's Unicode-aware
+   char::is_alphanumeric) that agrees with the ASCII definition on ASCII. *)
 From Calamine Require Import Prelude Col26 SharedFmla SharedFmla_proofs.
 Open Scope N_scope.
 
+Definition alnum_oracle (is_alnum : N -> bool) : Prop :=
+  forall c, c < 128 -> is_alnum c = ascii_alnum c.
+
 (* the rewriting of the master text: for every formula of the token grammar, at every offset
    that keeps its references on the sheet, outside the known classes, the real scanner returns
-   the text of the formula whose relative reference components moved by the offset *)
+   the text of the formula whose relative reference components moved by the offset — mixed
+   references, look-alike function / sheet / defined names, non-ASCII text, quotes inside quoted
+   sheet names, long digit runs and bracketed references included *)
 Theorem C15_translate_correct :
+  forall is_alnum, alnum_oracle is_alnum ->
   forall ts off,
-    wf_formula ts = true -> in_range ts off -> known_C15 ts = None ->
-    replace_cell_names (render_all ts) off = Ok (render_all (map (translate off) ts)).
+    wf_formula is_alnum ts = true -> in_range ts off -> known_C15 ts = None ->
+    replace_cell_names is_alnum (render_all ts) off = Ok (render_all (map (translate off) ts)).
 Proof. exact translate_correct. Qed.
 
-(* vertical groups (column offset 0): mixed references are translated correctly too *)
-Theorem C15_translate_correct_vertical :
-  forall ts dr,
-    wf_formula ts = true -> in_range ts (dr, 0%Z) -> known_C15_v ts = None ->
-    replace_cell_names (render_all ts) (dr, 0%Z) = Ok (render_all (map (translate (dr, 0%Z)) ts)).
-Proof. exact translate_correct_vertical. Qed.
+(* the same with the class taken at the offset: whole-column ranges are fine when the column
+   offset is 0 (vertical groups), whole-row ranges when the row offset is 0 *)
+Theorem C15_translate_correct_at :
+  forall is_alnum, alnum_oracle is_alnum ->
+  forall ts off,
+    wf_formula is_alnum ts = true -> in_range ts off -> known_at off ts = None ->
+    replace_cell_names is_alnum (render_all ts) off = Ok (render_all (map (translate off) ts)).
+Proof. exact translate_correct_at. Qed.
 
-(* a text without any candidate that parses as a cell name comes out unchanged *)
-Theorem C15_inert_text :
-  forall off u, off_ok off = true -> text_class u = None -> rcn_bytes u off = Ok u.
-Proof. exact inert_text. Qed.
+(* every offset between two cells of a sheet, also where a translated reference would leave the
+   sheet (outside the property's domain): that reference is reproduced unchanged, nothing else
+   is affected; whole-column / whole-row ranges are never moved *)
+Theorem C15_translate_total :
+  forall is_alnum, alnum_oracle is_alnum ->
+  forall ts off,
+    wf_formula is_alnum ts = true -> off_ok off = true -> forallb no3d ts = true ->
+    replace_cell_names is_alnum (render_all ts) off = Ok (render_all (map (translate_clip off) ts)).
+Proof. exact translate_total. Qed.
+
+(* any text at all, any offset up to 2^62: no panic (usize bracket depth, i64 arithmetic), no
+   error, the fuel of the model suffices *)
+Theorem C15_no_panic :
+  forall is_alnum, alnum_oracle is_alnum ->
+  forall s off, off_small off -> exists r, replace_cell_names is_alnum s off = Ok r.
+Proof. exact rcn_total. Qed.
 
 Example C15_translate_correct_nonvacuous :
-  wf_formula ex_tokens = true /\ in_range ex_tokens (5, 2)%Z /\ known_C15 ex_tokens = None /\
-  render_all (map (translate (5, 2)%Z) ex_tokens) <> render_all ex_tokens.
-Proof. exact translate_correct_nonvacuous. Qed.
+  alnum_oracle ascii_alnum /\
+  wf_formula ascii_alnum ex_tokens = true /\ in_range ex_tokens (5, 2)%Z /\
+  known_C15 ex_tokens = None /\
+  render_all (map (translate (5, 2)%Z) ex_tokens) <> render_all ex_tokens /\
+  replace_cell_names ascii_alnum (render_all ex_tokens) (5, 2)%Z
+    = Ok (render_all (map (translate (5, 2)%Z) ex_tokens)).
+Proof. split; [exact ascii_oracle|exact translate_correct_nonvacuous]. Qed.
 
-(* known classes (F22): each is inhabited inside the grammar and inside [in_range], and the
-   model (= the real code, see the correspondence check) does not return the translated text *)
-Theorem C15_refuted_mixed :
-  exists ts off, wf_formula ts = true /\ in_range ts off /\ known_C15 ts = Some CL_MIXED /\
-    replace_cell_names (render_all ts) off <> Ok (render_all (map (translate off) ts)).
-Proof. exact refuted_mixed. Qed.
-Theorem C15_refuted_lookalike :
-  exists ts off, wf_formula ts = true /\ in_range ts off /\ known_C15 ts = Some CL_LOOKALIKE /\
-    replace_cell_names (render_all ts) off <> Ok (render_all (map (translate off) ts)).
-Proof. exact refuted_lookalike. Qed.
-Theorem C15_refuted_nonascii :
-  exists ts off, wf_formula ts = true /\ in_range ts off /\ known_C15 ts = Some CL_NONASCII /\
-    replace_cell_names (render_all ts) off = Err E_UTF8.
-Proof. exact refuted_nonascii. Qed.
-Theorem C15_refuted_quote :
-  exists ts off, wf_formula ts = true /\ in_range ts off /\ known_C15 ts = Some CL_QUOTE /\
-    replace_cell_names (render_all ts) off <> Ok (render_all (map (translate off) ts)).
-Proof. exact refuted_quote. Qed.
-Theorem C15_refuted_overflow :
-  exists ts off, wf_formula ts = true /\ in_range ts off /\ known_C15 ts = Some CL_OVERFLOW /\
-    replace_cell_names (render_all ts) off = Panic.
-Proof. exact refuted_overflow. Qed.
-
-(* the groups: on every sheet whose shared indices increase in document order and whose members
-   are outside the known classes, every cell is reported with the formula the property demands:
-   a member inside the declared ref of its group gets the master formula translated by its own
-   offset (1-D refs, and the first column of 2-D refs), every other cell keeps its own text *)
+(* the groups: on every sheet of well-formed groups — column, row or block refs, the master
+   anywhere, shared indices in any document order, repeated or with gaps — whose members are
+   outside the known classes, every cell is reported with the formula the property demands: a
+   member inside the declared ref of the group its index denotes gets the master formula
+   translated by its own offset, every other cell keeps its own text *)
 Theorem C15_group_covers_range :
+  forall is_alnum, alnum_oracle is_alnum ->
   forall cs,
-    sheet_okb [] None cs = true ->
-    run_cells [] (map encode_cell cs) = Ok (spec_cells [] cs) /\
-    sheet_formulas (map encode_cell cs)
-      = Ok (filter (fun pv => negb (fval_is_empty (snd pv))) (spec_cells [] cs)).
+    sheet_okb is_alnum [] cs = true ->
+    run_cells is_alnum [] (map encode_cell cs) = Ok (spec_cells [] cs) /\
+    sheet_formulas is_alnum (map encode_cell cs)
+      = Ok (filter (fun pv => nonempty (snd pv)) (spec_cells [] cs)).
 Proof. exact group_covers_range. Qed.
 
-(* the offset map built from the declared ref serves exactly the cells of a 1-D ref *)
-Theorem C15_offset_map_inside :
-  forall g p,
-    group_okb g = true -> in_box (g_start g) (g_end g) p = true ->
-    known_member g p = None -> p <> g_master g ->
-    omap_get (build_offset_map (g_start g, g_end g) (g_master g)) p = Some (member_offset g p).
-Proof. exact offset_map_inside. Qed.
-Theorem C15_offset_map_outside :
-  forall g p,
-    group_okb g = true -> in_box (g_start g) (g_end g) p = false ->
-    omap_get (build_offset_map (g_start g, g_end g) (g_master g)) p = None.
-Proof. exact offset_map_outside. Qed.
-
 Example C15_group_covers_range_nonvacuous :
-  sheet_okb [] None ex_sheet = true /\
-  nth_error (spec_cells [] ex_sheet) 6 = Some ((4, 1), VBytes [36;65;52;43;49]) /\
-  nth_error (spec_cells [] ex_sheet) 7 = Some ((5, 5), VText [75]) /\
-  nth_error (spec_cells [] ex_sheet) 12 = Some ((6, 4), VBytes [36;65;36;49;42;70;49]).
+  sheet_okb ascii_alnum [] ex_sheet = true /\
+  nth_error (spec_cells [] ex_sheet) 1 = Some ((1, 1), []) /\
+  nth_error (spec_cells [] ex_sheet) 3
+    = Some ((2, 3), render_all [TRef true 0 false 20; TSym 43; TRef false 6 true 0; TSym 42;
+                                TFunc [76;79;71;49;48]; TRef false 8 false 21; TSym 41]) /\
+  nth_error (spec_cells [] ex_sheet) 4
+    = Some ((3, 1), render_all [TRef true 0 false 21; TSym 43; TRef false 4 true 0; TSym 42;
+                                TFunc [76;79;71;49;48]; TRef false 6 false 22; TSym 41]) /\
+  nth_error (spec_cells [] ex_sheet) 8
+    = Some ((5, 4), render_all [TRef false 3 false 0; TSym 43; TNum [49] None None]) /\
+  nth_error (spec_cells [] ex_sheet) 9 = Some ((6, 0), [75]).
 Proof. exact group_covers_range_nonvacuous. Qed.
 
-Theorem C15_refuted_block :
-  exists g p, group_okb g = true /\ in_box (g_start g) (g_end g) p = true /\
-    known_member g p = Some CL_BLOCK /\
-    run_cells [] (map encode_cell [SMaster g; SMember p (g_si g) []])
-      = Ok [(g_master g, VText (render_all (g_tokens g))); (p, VText [])] /\
-    member_formula g p <> [].
-Proof. exact refuted_block. Qed.
-Theorem C15_refuted_si_order :
-  exists cs, run_cells [] (map encode_cell cs) <> Ok (spec_cells [] cs) /\
-    sheet_okb [] None cs = false.
-Proof. exact refuted_si_order. Qed.
+(* known classes: each is inhabited inside the grammar and inside [in_range], and the model
+   (= the real code, see the correspondence check) does not return the translated text *)
+Theorem C15_refuted_whole_range :
+  exists ts off, wf_formula ascii_alnum ts = true /\ in_range ts off /\
+    known_C15 ts = Some CL_WHOLE /\ known_at off ts = Some CL_WHOLE /\
+    replace_cell_names ascii_alnum (render_all ts) off = Ok (render_all ts) /\
+    render_all ts <> render_all (map (translate off) ts).
+Proof. exact refuted_whole_range. Qed.
+Theorem C15_refuted_sheet3d :
+  exists ts off, wf_formula ascii_alnum ts = true /\ in_range ts off /\
+    known_C15 ts = Some CL_SHEET3D /\
+    replace_cell_names ascii_alnum (render_all ts) off = Ok [81;50;58;81;51;33;65;50] /\
+    render_all (map (translate off) ts) = [81;49;58;81;51;33;65;50].
+Proof. exact refuted_sheet3d. Qed.
+Theorem C15_refuted_group_whole_range :
+  exists cs, sheet_okb ascii_alnum [] cs = false /\
+    run_cells ascii_alnum [] (map encode_cell cs) <> Ok (spec_cells [] cs).
+Proof. exact refuted_group_whole_range. Qed.
 
 Check C15_translate_correct :
+  forall is_alnum, (forall c, c < 128 -> is_alnum c = ascii_alnum c) ->
   forall ts off,
-    wf_formula ts = true -> in_range ts off -> known_C15 ts = None ->
-    replace_cell_names (render_all ts) off = Ok (render_all (map (translate off) ts)).
-Check C15_translate_correct_vertical :
-  forall ts dr,
-    wf_formula ts = true -> in_range ts (dr, 0%Z) -> known_C15_v ts = None ->
-    replace_cell_names (render_all ts) (dr, 0%Z) = Ok (render_all (map (translate (dr, 0%Z)) ts)).
-
+    wf_formula is_alnum ts = true -> in_range ts off -> known_C15 ts = None ->
+    replace_cell_names is_alnum (render_all ts) off = Ok (render_all (map (translate off) ts)).
 Check C15_group_covers_range :
+  forall is_alnum, (forall c, c < 128 -> is_alnum c = ascii_alnum c) ->
   forall cs,
-    sheet_okb [] None cs = true ->
-    run_cells [] (map encode_cell cs) = Ok (spec_cells [] cs) /\
-    sheet_formulas (map encode_cell cs)
-      = Ok (filter (fun pv => negb (fval_is_empty (snd pv))) (spec_cells [] cs)).
+    sheet_okb is_alnum [] cs = true ->
+    run_cells is_alnum [] (map encode_cell cs) = Ok (spec_cells [] cs) /\
+    sheet_formulas is_alnum (map encode_cell cs)
+      = Ok (filter (fun pv => nonempty (snd pv)) (spec_cells [] cs)).
 
 Print Assumptions C15_translate_correct.
-Print Assumptions C15_translate_correct_vertical.
-Print Assumptions C15_inert_text.
-Print Assumptions C15_refuted_mixed.
-Print Assumptions C15_refuted_lookalike.
-Print Assumptions C15_refuted_nonascii.
-Print Assumptions C15_refuted_quote.
-Print Assumptions C15_refuted_overflow.
+Print Assumptions C15_translate_correct_at.
+Print Assumptions C15_translate_total.
+Print Assumptions C15_no_panic.
 Print Assumptions C15_group_covers_range.
-Print Assumptions C15_offset_map_inside.
-Print Assumptions C15_offset_map_outside.
-Print Assumptions C15_refuted_block.
-Print Assumptions C15_refuted_si_order.
+Print Assumptions C15_refuted_whole_range.
+Print Assumptions C15_refuted_sheet3d.
+Print Assumptions C15_refuted_group_whole_range.
